@@ -207,6 +207,7 @@ func checkC13(c *Ctx) {
 	c13CtxFuncs(c)
 	c13Filters(c)
 	c13Inject(c, reach)
+	c13CtxFuncApplied(c, reach)
 	dispatchOwnContext(c, "R-own-session")
 }
 
@@ -769,4 +770,260 @@ func sharedSessionOrigin(c *Ctx, fn *ssa.Function, v ssa.Value, d int, seen map[
 		}
 	}
 	return ""
+}
+
+// ---------------------------------------------------------------- R-ctxfunc-applied
+// The values that middlewares, filters and handlers read from the context are put there by the configured HTTP context
+// functions (func(context.Context, *http.Request) context.Context) from the caller's own HTTP request. Every context an
+// HTTP request path hands to the request dispatcher must therefore descend from the result of applying them: followed
+// backwards through context.With* / library helpers, parameters (to every library caller) and captured variables, it
+// reaches a call of such a function (or the fold over the configured slice) — never r.Context() or a fresh context
+// first. A branch that starts again from r.Context() serves its requests without the caller's values.
+func isCtxFuncSig(t types.Type) bool {
+	sig, ok := t.Underlying().(*types.Signature)
+	if !ok || sig.Params().Len() != 2 || sig.Results().Len() != 1 {
+		return false
+	}
+	return ir.TypeStr(sig.Params().At(0).Type()) == "context.Context" && ir.TypeStr(sig.Params().At(1).Type()) == "*net/http.Request" &&
+		ir.TypeStr(sig.Results().At(0).Type()) == "context.Context"
+}
+
+func isCtxFuncCall(v ssa.Value) bool {
+	call, ok := v.(*ssa.Call)
+	if !ok || call.Call.IsInvoke() || ir.StaticCallee(call) != nil {
+		return false
+	}
+	return isCtxFuncSig(call.Call.Value.Type())
+}
+
+func c13CtxFuncApplied(c *Ctx, reach map[*ssa.Function]bool) {
+	appliers := map[*ssa.Function]bool{}
+	for _, fn := range c.P.LibFns {
+		ir.EachInstr(fn, func(_ *ssa.BasicBlock, _ int, in ssa.Instruction) {
+			if v, ok := in.(ssa.Value); ok && isCtxFuncCall(v) {
+				appliers[fn] = true
+			}
+		})
+	}
+	if len(appliers) < 2 {
+		c.R.Break("R-ctxfunc-applied: expected the HTTP context functions to be applied by at least two functions (Streamable and SSE servers), found %d", len(appliers))
+		return
+	}
+	w := &ctxWalker{c: c, pass: func(call *ssa.Call) bool {
+		if isCtxFuncCall(call) {
+			return true
+		}
+		sc := ir.StaticCallee(call)
+		return sc != nil && appliers[sc]
+	}, fold: true}
+	enriched := func(fn *ssa.Function, v ssa.Value, d int, seen map[ctxKey]bool) (bool, string) {
+		return w.descends(fn, v, d, seen)
+	}
+	n := 0
+	for _, fn := range sortedFuncs(reach) {
+		ir.EachInstr(fn, func(_ *ssa.BasicBlock, _ int, in ssa.Instruction) {
+			call, ok := in.(ssa.CallInstruction)
+			if !ok || !c.isDispatchCall(call) {
+				return
+			}
+			for _, a := range call.Common().Args {
+				if ir.TypeStr(a.Type()) != "context.Context" {
+					continue
+				}
+				n++
+				ok, why := enriched(fn, a, 0, map[ctxKey]bool{})
+				c.R.Check(ok, "R-ctxfunc-applied", sprintf("context handed to the dispatcher by %s", fname(fn)), c.Pos(call.Pos()),
+					"descends from the result of the configured HTTP context functions",
+					sprintf("%s hands the request dispatcher a context that descends from %s without passing through the configured HTTP context functions: middlewares, filters and handlers of these requests do not see the values derived from the caller's HTTP request (identity, role), so a listing is filtered for nobody in particular", fname(fn), why))
+			}
+		})
+	}
+	c.R.Min("R-ctxfunc-applied", 3)
+	if n == 0 {
+		c.R.Break("R-ctxfunc-applied: no dispatcher call with a context found on the HTTP request paths")
+	}
+}
+
+// ctxWalker follows a context value backwards — through context.With* and library helpers that take a context,
+// parameters (to every library caller), local cells and captured variables — and reports whether every origin lies
+// behind a call accepted by pass (fold: the accumulating loop over context functions counts as such a call).
+type ctxKey struct {
+	fn *ssa.Function
+	v  ssa.Value
+}
+
+type ctxWalker struct {
+	c     *Ctx
+	pass  func(call *ssa.Call) bool
+	fold  bool
+	cond  bool                   // `if x != nil { ctx = pass(ctx, x) }` counts as passed (there is nothing to pass when x is nil)
+	local bool                   // do not follow parameters to the callers: a parameter is an origin that has not passed
+	scope map[*ssa.Function]bool // when set, only callers in this set are followed (one transport's request paths)
+}
+
+func (w *ctxWalker) descendsLocal(fn *ssa.Function, v ssa.Value, d int, seen map[ctxKey]bool) (bool, string) {
+	w.local = true
+	return w.descends(fn, v, d, seen)
+}
+
+func (w *ctxWalker) descends(fn *ssa.Function, v ssa.Value, d int, seen map[ctxKey]bool) (bool, string) {
+	c := w.c
+	enriched := w.descends
+
+	if d > 24 {
+		return false, "derivation too deep to follow"
+	}
+	k := ctxKey{fn, v}
+	if seen[k] {
+		return true, "" // a cycle adds no new origin
+	}
+	seen[k] = true
+	switch x := v.(type) {
+	case *ssa.Call:
+		if w.pass(x) {
+			return true, ""
+		}
+		n := ir.CallName(x)
+		if n == "(*net/http.Request).Context" {
+			return false, "r.Context() of " + fname(fn)
+		}
+		if n == "context.Background" || n == "context.TODO" {
+			return false, n + " in " + fname(fn)
+		}
+		for _, a := range x.Call.Args {
+			if ir.TypeStr(a.Type()) == "context.Context" {
+				return enriched(fn, a, d+1, seen)
+			}
+		}
+		if x.Call.IsInvoke() && ir.TypeStr(x.Call.Value.Type()) == "context.Context" {
+			return enriched(fn, x.Call.Value, d+1, seen)
+		}
+		return false, "the result of " + n + " in " + fname(fn)
+	case *ssa.Phi:
+		for _, e := range x.Edges {
+			if call, ok := e.(*ssa.Call); ok && ((w.fold && isCtxFuncCall(call)) || (w.cond && w.pass(call))) && len(call.Call.Args) > 0 {
+				a0 := call.Call.Args[0]
+				if a0 == ssa.Value(x) {
+					return true, "" // the fold over the configured functions
+				}
+				for _, e2 := range x.Edges {
+					if e2 == a0 {
+						return true, "" // `if f != nil { ctx = f(ctx, r) }`
+					}
+				}
+			}
+		}
+		for _, e := range x.Edges {
+			if e == ssa.Value(x) {
+				continue
+			}
+			if ok, why := enriched(fn, e, d+1, seen); !ok {
+				return false, why
+			}
+		}
+		return true, ""
+	case *ssa.Extract:
+		return enriched(fn, x.Tuple, d+1, seen)
+	case *ssa.MakeInterface:
+		return enriched(fn, x.X, d+1, seen)
+	case *ssa.ChangeInterface:
+		return enriched(fn, x.X, d+1, seen)
+	case *ssa.ChangeType:
+		return enriched(fn, x.X, d+1, seen)
+	case *ssa.UnOp:
+		if x.Op != token.MUL {
+			return false, "an expression in " + fname(fn)
+		}
+		switch cell := x.X.(type) {
+		case *ssa.Alloc:
+			n := 0
+			for _, r := range *cell.Referrers() {
+				if st, ok := r.(*ssa.Store); ok && st.Addr == ssa.Value(cell) {
+					n++
+					if ok, why := enriched(fn, st.Val, d+1, seen); !ok {
+						return false, why
+					}
+				}
+			}
+			if n == 0 {
+				return false, "a variable never assigned in " + fname(fn)
+			}
+			return true, ""
+		case *ssa.FreeVar:
+			return enriched(fn, cell, d+1, seen)
+		}
+		return false, "a member or element loaded in " + fname(fn)
+	case *ssa.FreeVar:
+		parent := fn.Parent()
+		if parent == nil {
+			return false, "a captured variable of " + fname(fn)
+		}
+		idx := -1
+		for i, fv := range fn.FreeVars {
+			if fv == x {
+				idx = i
+			}
+		}
+		found := false
+		var bad string
+		ir.EachInstr(parent, func(_ *ssa.BasicBlock, _ int, in ssa.Instruction) {
+			mc, ok := in.(*ssa.MakeClosure)
+			if !ok || mc.Fn != ssa.Value(fn) || idx < 0 || idx >= len(mc.Bindings) {
+				return
+			}
+			found = true
+			b := mc.Bindings[idx]
+			if al, ok := b.(*ssa.Alloc); ok {
+				// captured by reference: every value the cell is given
+				for _, r := range *al.Referrers() {
+					if st, ok := r.(*ssa.Store); ok && st.Addr == ssa.Value(al) {
+						if ok, why := enriched(parent, st.Val, d+1, seen); !ok {
+							bad = why
+						}
+					}
+				}
+				return
+			}
+			if ok, why := enriched(parent, b, d+1, seen); !ok {
+				bad = why
+			}
+		})
+		if !found {
+			return false, "a captured variable of " + fname(fn)
+		}
+		return bad == "", bad
+	case *ssa.Parameter:
+		if w.local {
+			return false, "a parameter of " + fname(fn)
+		}
+		idx := -1
+		for i, p := range fn.Params {
+			if p == x {
+				idx = i
+			}
+		}
+		nCallers := 0
+		for _, e := range ir.Callers(c.G, fn) {
+			if e.Site == nil || !c.P.IsLib(e.Caller.Func) || (w.scope != nil && !w.scope[e.Caller.Func]) {
+				continue
+			}
+			cc := e.Site.Common()
+			ai := idx
+			if cc.IsInvoke() {
+				ai = idx - 1
+			}
+			if ai < 0 || ai >= len(cc.Args) {
+				continue
+			}
+			nCallers++
+			if ok, why := enriched(e.Caller.Func, cc.Args[ai], d+1, seen); !ok {
+				return false, why
+			}
+		}
+		if nCallers == 0 {
+			return false, "a parameter of " + fname(fn) + ", which no library function calls"
+		}
+		return true, ""
+	}
+	return false, "an expression in " + fname(fn)
 }
